@@ -23,6 +23,14 @@ void _ZN3tbb6detail2d219forward_task_bypassINS1_12limiter_nodeIiiEEEC2ERNS1_5gra
   struct S_class_tbb__detail__d2__limiter_node* n, u32 prio) { n_ctor++; }
 /* cut: spawn_in_graph_arena(graph&, graph_task&): the task will run later (every constructed task is run by the harness) */
 void _ZN3tbb6detail2d220spawn_in_graph_arenaERNS1_5graphERNS1_10graph_taskE(struct S_class_tbb__detail__d2__graph* g, struct S_class_tbb__detail__d2__graph_task* t) { }
+/* cut: spin_mutex / spin_rw_mutex lock operations (the locks themselves are C08's subject): abstract locks with the documented
+   contract, state kept in the real lock word; a caller that cannot get the lock parks (VP_BLOCK) and retries the call */
+void _ZN3tbb6detail2d110spin_mutex4lockEv(struct S_class_tbb__detail__d1__spin_mutex* m) { u8* w = (u8*)m; if (*w) { VP_BLOCK(); return; } *w = 1; }
+void _ZN3tbb6detail2d110spin_mutex6unlockEv(struct S_class_tbb__detail__d1__spin_mutex* m) { u8* w = (u8*)m; VP_ASSERT(*w == 1, "unlock of a spin_mutex that is not held"); *w = 0; }
+void _ZN3tbb6detail2d113spin_rw_mutex4lockEv(struct S_class_tbb__detail__d1__spin_rw_mutex* m) { u64* w = (u64*)m; if (*w) { VP_BLOCK(); return; } *w = 1; }
+void _ZN3tbb6detail2d113spin_rw_mutex6unlockEv(struct S_class_tbb__detail__d1__spin_rw_mutex* m) { u64* w = (u64*)m; VP_ASSERT(*w == 1, "unlock of a spin_rw_mutex not held for writing"); *w = 0; }
+void _ZN3tbb6detail2d113spin_rw_mutex11lock_sharedEv(struct S_class_tbb__detail__d1__spin_rw_mutex* m) { u64* w = (u64*)m; if (*w & 1) { VP_BLOCK(); return; } *w += 4; }
+void _ZN3tbb6detail2d113spin_rw_mutex13unlock_sharedEv(struct S_class_tbb__detail__d1__spin_rw_mutex* m) { u64* w = (u64*)m; VP_ASSERT(*w >= 4 && !(*w & 1), "unlock_shared of a spin_rw_mutex not held for reading"); *w -= 4; }
 u32 vp_src_reserve(u32* v) { if (!item_avail || item_reserved) return 0; item_reserved = 1; offered_ok = 0; *v = (u32)item_val; return 1; }
 void vp_src_release(void) { VP_ASSERT(item_reserved, "release without reservation"); VP_ASSERT(!offered_ok, "release although the successor accepted the message"); item_reserved = 0; }
 void vp_src_consume(void) { VP_ASSERT(item_reserved && offered_ok, "consume without reservation / accepted offer"); item_reserved = 0; item_avail = 0; }
